@@ -600,7 +600,7 @@ fn plan(tier: &str, seed: u64) -> Vec<(Dist, Vec<usize>)> {
     let mut add = |kind: &'static str, n: usize, gseed: u64, param: u64, ks: Vec<usize>| {
         out.push((Dist { kind, n, gseed, param }, ks));
     };
-    let reps: u64 = if thorough { 8 } else { 2 };
+    let reps: u64 = if thorough { 8 } else { 1 };
     let ns_small: Vec<usize> = if thorough {
         vec![1, 2, 3, 4, 5, 7, 11, 16, 33, 49, 63, 64, 65, 100, 128, 200]
     } else {
@@ -831,7 +831,7 @@ pub fn run(args: &[String], seed: u64) -> anyhow::Result<Value> {
     }
     if let Some(dir) = arg("--record") {
         let tier = arg("--tier").unwrap_or_else(|| "quick".to_string());
-        let w = arg("--chunk-weight").and_then(|s| s.parse().ok()).unwrap_or(400_000);
+        let w = arg("--chunk-weight").and_then(|s| s.parse().ok()).unwrap_or(600_000);
         return record(&dir, &tier, seed, w);
     }
     if let Some(pairs) = arg("--judge") {
